@@ -63,6 +63,15 @@ def xdom_components(tag, quick=3500, thorough=150000):
              "accept": (lambda tag: lambda v, req, msg: tag in msg or v == "DRIFT")(tag)} for d in (1, 2, 3)]
 
 
+def rprog_components(tag, quick=2000, thorough=20000):
+    # programs with region / reference statements analysed by the real forward and forward+backward analyzers over
+    # region_domain<intervals | split_dbm | flat_bool(intervals) | array_adaptive(intervals) | constants | sign-constants>
+    return [{"harness": f"h_rprog_{d}", "source": "h_rprog", "defines": [f"-DRDOM={d}"], "quick": quick, "thorough": thorough,
+             "shards": 1, "corpus": "h_rprog",
+             "nontrivial": lambda l: "(rassert" in l and ("(st " in l or "(ld " in l) and l.count("(stmts") >= 2,
+             "accept": (lambda tag: lambda v, req, msg: tag in msg or v in ("DRIFT", "BAD"))(tag)} for d in range(1, 7)]
+
+
 DOM2_DOMAINS = {27: "vpart-intervals", 28: "pvpart-sdbm", 29: "uf", 30: "packing-sdbm", 31: "packing-soct-safe",
  32: "rgn-intervals", 33: "rgn-flat-bool-intervals", 34: "flat-bool-sdbm-safe", 35: "flat-bool-soct-safe", 36: "flat-bool-term-intervals",
  37: "flat-bool-ric", 38: "term-dis-intervals", 39: "term-sparse-dbm", 40: "product-intervals-congruences", 41: "product-sdbm-safe-dis-intervals",
@@ -177,7 +186,7 @@ PROPS = {
     "C01": {
         "level": "proof",
         "lean_modules": ["CrabProofs.Props.C01Engine", "CrabProofs.Props.C01Prog"],
-        "components": [FIX_COMPONENT] + prog_components("[C01]", 500, 6000) + prog_components("[C01]", 250, 3000, ids=(15, 17, 13)),
+        "components": [FIX_COMPONENT] + prog_components("[C01]", 500, 6000) + prog_components("[C01]", 250, 3000, ids=(15, 17, 13)) + rprog_components("[C01]", 1200, 12000),
         "rule": "(1) iterator harness as C06: random CFGs x relations x start blocks x assumption maps x delay/descending x widening/narrowing modes; every table entry of the real iterator must contain the Kleene least solution. (2) " + PROG_RULE,
         "assumptions": ["the statement->operation mapping of intra_abs_transformer, liveness pruning and thresholds are covered by the program harness (tested), the engine and the interval domain by theorems; the Sem contract of the other shipped domains is tested (C03 history harness + program harness)",
                         ],
@@ -276,8 +285,8 @@ PROPS = {
     },
     "C02": {
         "level": "proof",
-        "lean_modules": ["CrabProofs.Props.C02"],
-        "components": prog_components("[C02]", 500, 6000) + prog_components("[C02]", 250, 3000, ids=(13, 16, 17, 15)),
+        "lean_modules": ["CrabProofs.Props.C02", "CrabProofs.Props.C02Rgn"],
+        "components": prog_components("[C02]", 500, 6000) + prog_components("[C02]", 250, 3000, ids=(13, 16, 17, 15)) + rprog_components("[C02]"),
         "rule": PROG_RULE,
         "assumptions": ["concrete semantics of DESIGN.md 2.3; executions that hit an operation crab gives no meaning to are not counted", "the inter-procedural checker is covered by C09's harness"],
         "trusted_base": COMMON_TB + ["semantics: CrabModel/IR/{Syntax,Semantics}.lean; checker model: CrabModel/Analysis/Checker.lean"],
@@ -289,7 +298,7 @@ PROPS = {
                         "quick": 1200, "thorough": 12000, "shards": 2, "corpus": "h_bwd",
                         "nontrivial": lambda l: l.startswith("(bwd.op") or (len(l.split("(pre", 1)) == 2 and "(f 0" in l.split("(pre", 1)[1] and ("(cs (le" in l.split("(pre", 1)[1] or "(cs (eq" in l.split("(pre", 1)[1])),
                         "accept": lambda verdict, req, msg: "[C11]" in msg or verdict == "DRIFT"}
-                       for d in [1, 8, 9, 14, 26, 2, 3]],
+                       for d in [1, 8, 9, 14, 26, 2, 3]] + rprog_components("[C11]", 1200, 12000),
         "rule": ("random CFGs with an exit block (2-8 blocks quick, up to 10 thorough; loops, diamonds, dead-end blocks and trap loops, asserts in several blocks) x mode error|good x supplied forward invariants (the forward analyser's / top / none) x final states (bottom, top, random box); single statements through intra_necessary_preconditions_abs_transformer::exec with random post value and forward invariant; intra_forward_backward_analyzer safe verdicts. The driver samples block-entry states, searches a witness execution (bounded DFS, replay-validated) for every state outside the exported precondition; non-trivial = some block precondition is neither top nor bottom"),
         "assumptions": ["concrete semantics DESIGN.md 2.3", "left operand of bin_op is a variable", "the backward contract of the shipped domains is sampled, not proved; fixed_tvpi/lookahead/numerical_packing/powerset/value_partitioning/uf backward operations are not driven"],
         "trusted_base": COMMON_TB + ["models: CrabModel/Bwd/{BSyntax,BSemantics,BwdTransfer}.lean; driver search/replay: Driver/BwdH.lean (replay proved to imply CoReach)"],
